@@ -80,7 +80,7 @@ CHECKS = {
     "C14": ("exploration",
             "bounded exhaustive enumeration of strings, token sequences, edited sentences and byte files in crash-isolated workers",
             "Every string up to the C09 bounds, every token sequence up to length 4/5 over all 29 token symbols and 5/6 over a 21-symbol class alphabet (including streams tokenize itself never emits), and every grammar.y sentence up to 5/7 tokens (and every sentence of six sub-grammar slices up to 9/11 tokens) with every single-token deletion, substitution and insertion, and 624 programs that make the checker quote a compound operand, is pushed through the real tokenize and parse in worker processes with the same 16 MiB stack as the shipped binary; a panic is caught and reported with its message, an abort or watchdog expiry is attributed to the case in flight. The real `gram check` binary is launched on every byte string of length <= 1, byte pairs, invalid-UTF-8 mutations of the examples, an empty / missing file and a directory, and must honour the exit-code / stdout / stderr contract and agree with the in-process pipeline.",
-            "Trusted: the worker supervision (signal handler dumps the case in flight; driver restarts). Token sequences that parse are also type checked in-process unless the reference finds a divergent piece in them (pre-screen); all of `gram check` is driven at process level.",
+            "Trusted: the worker supervision (signal handler dumps the case in flight; driver restarts). Token sequences that parse are also type checked in-process unless the reference finds a divergent piece in them (pre-screen); all of `gram check` is driven at process level, and for accepted files the standard output of `gram check` / `gram run` is compared byte for byte with what the in-process pipeline computes.",
             "DESIGN.md 6/C14"),
     "C17": ("exploration",
             "systematic enumeration of input families on a ladder of sizes with a deterministic work counter",
